@@ -219,8 +219,16 @@ func (server *SugarDB) setValues(ctx context.Context, entries map[string]interfa
 
 	for key, value := range entries {
 		expireAt := time.Time{}
-		if _, ok := server.store[database][key]; ok {
-			expireAt = server.store[database][key].ExpireAt
+		if entry, ok := server.store[database][key]; ok {
+			if entry.ExpireAt != (time.Time{}) && entry.ExpireAt.Before(server.clock.Now()) {
+				// The old entry has expired: remove it together with its bookkeeping,
+				// so that the new value does not inherit the passed deadline.
+				if err := server.deleteKey(ctx, key); err != nil {
+					return err
+				}
+			} else {
+				expireAt = entry.ExpireAt
+			}
 		}
 		server.store[database][key] = internal.KeyData{
 			Value:    value,
